@@ -130,9 +130,9 @@ def r2(ctx):
                 return (("empty",),)
             return None
         try:
-            r1_ = interp.eval_in(ctx.anchor_hir(GET_VALUE), a["body"], {"function_arg": "a-b-c", "function_args": ["-", "+"]}, call=call)
-            r2_ = interp.eval_in(ctx.anchor_hir(GET_VALUE), a["body"], {"function_arg": "a-b-c", "function_args": ["-"]}, call=call)
-            r3_ = interp.eval_in(ctx.anchor_hir(GET_VALUE), a["body"], {"function_arg": "xyx", "function_args": ["x", ""]}, call=call)
+            r1_ = interp.eval_in(ctx.anchor_hir(GET_VALUE), a["body"], {"function_arg": "a-b-c", "function_args": ["-", "+"]}, call=call, prog=ctx.prog)
+            r2_ = interp.eval_in(ctx.anchor_hir(GET_VALUE), a["body"], {"function_arg": "a-b-c", "function_args": ["-"]}, call=call, prog=ctx.prog)
+            r3_ = interp.eval_in(ctx.anchor_hir(GET_VALUE), a["body"], {"function_arg": "xyx", "function_args": ["x", ""]}, call=call, prog=ctx.prog)
             ok = r1_ == ("text", "a+b+c") and r2_ == ("empty",) and r3_ == ("text", "y")
         except interp.Undecided:
             pass
@@ -146,6 +146,14 @@ def r2(ctx):
         one_based = "- 1" in allr or "saturating_sub1" in flat or "checked_sub1" in flat
         first_arg = "function_args[0]" in allr or "function_args.first" in flat
         ok = one_based and "pos < 0" in flat and first_arg and "function_args.get1" in flat
+        # decided by evaluation where the arm can be read by the finite interpreter: 1-based position, negative positions from
+        # the end, optional length, characters not bytes
+        try:
+            ev_ = lambda s_, args_: interp.eval_in(ctx.anchor_hir(GET_VALUE), a["body"], {"function_arg": s_, "function_args": list(args_)}, call=call, prog=ctx.prog)
+            ok = ev_("abcdef", ["2", "3"]) == ("text", "bcd") and ev_("abcdef", ["3"]) == ("text", "cdef") and ev_("abcdef", ["-2"]) == ("text", "ef") and \
+                ev_("\u00e9\u00e8abc", ["2", "2"]) == ("text", "\u00e8a") and ev_("abc", ["1", "99"]) == ("text", "abc")
+        except interp.Undecided:
+            pass
         ctx.obligation(ok)
         if not ok:
             ctx.violation("operand/Substring", ctx.where(GET_VALUE, a["body"]),
@@ -154,6 +162,11 @@ def r2(ctx):
     if a:
         rets = [render(x["e"]) for x in walk_exprs(a["body"]) if x["k"] == "Ret" and "e" in x]
         ok = len(rets) >= 2 and "function_arg" in rets[0] and "arg" in rets[1]
+        try:
+            ev_ = lambda s_, args_: interp.eval_in(ctx.anchor_hir(GET_VALUE), a["body"], {"function_arg": s_, "function_args": list(args_)}, call=call, prog=ctx.prog)
+            ok = ev_("a", ["b"]) == ("text", "a") and ev_("", ["", "z", "y"]) == ("text", "z") and ev_("", ["b"]) == ("text", "b") and ev_("", ["", ""]) in (("text", ""), ("empty",))
+        except interp.Undecided:
+            pass
         ctx.obligation(ok)
         if not ok:
             ctx.violation("operand/Coalesce", ctx.where(GET_VALUE, a["body"]), "COALESCE must return its first non-empty argument, starting with the first")
